@@ -615,4 +615,5 @@ func c11RuleC(e *c04Env, attrVal constant.Value, ntType types.Type) {
 		c.Unknown("R11c", core.FuncKey(inner)+" child traversal", inner.Pos(), "no use of a child node found in InnerText: the traversal has a shape this rule does not understand")
 	}
 	c.Floor("R11c", 1, "recursion over children in InnerText")
+	c11NavModel(e.c)
 }
